@@ -466,6 +466,25 @@ impl NotificationHandle {
     }
 }
 
+#[cfg(feature = "verif")]
+impl NotificationHandle {
+    /// Verification hook: is `peer` in the handle's `peers` map (stream considered open)?
+    pub fn verif_is_open(&self, peer: &PeerId) -> bool {
+        self.peers.contains_key(peer)
+    }
+
+    /// Verification hook: does the handle hold a validation request of `peer`?
+    pub fn verif_validation_pending(&self, peer: &PeerId) -> bool {
+        self.pending_validations.contains_key(peer)
+    }
+
+    /// Verification hook: queue `NotificationCommand::ForceClose` (otherwise only sent when a
+    /// synchronous notification channel is clogged).
+    pub fn verif_force_close(&self, peer: PeerId) {
+        let _ = self.command_tx.try_send(NotificationCommand::ForceClose { peer });
+    }
+}
+
 impl Stream for NotificationHandle {
     type Item = NotificationEvent;
 
